@@ -18,13 +18,16 @@ CONSTANTS Export, MaxOps, GuardRelease, Limits
 \* correct one does not (rejections, sessions without a slot that ended under a limit).  It changes no
 \* behaviour of this model; it is part of the VIEW so that one scenario is exported per (state, past) pair
 \* and history-dependent deviations of the code are reached, not only state-dependent ones.
-VARIABLES lim, tmp, now, live, n, hist, unl, ghost
-vars == <<lim, tmp, now, live, n, hist, unl, ghost>>
-view == <<lim, tmp, now, live, n, unl, ghost>>
+\* path: which accept path of the peer admits the connections (ServeConn, or the accept loop behind
+\* ListenAndServe); the limiter does not depend on it, the code that calls the hooks and closes rejected
+\* connections does
+VARIABLES lim, tmp, now, live, n, hist, unl, ghost, path
+vars == <<lim, tmp, now, live, n, hist, unl, ghost, path>>
+view == <<lim, tmp, now, live, n, unl, ghost, path>>
 Cap2(x) == IF x > 2 THEN 2 ELSE x
-Init == lim \in Limits /\ tmp = 0 /\ now = 0 /\ live = 0 /\ n = 0 /\ unl = 0 /\ ghost = [rej |-> 0, unlended |-> 0] /\ hist = <<[op |-> "limit", k |-> lim, admitted |-> 0, live |-> 0]>>
+Init == path \in {"serveconn", "listen"} /\ lim \in Limits /\ tmp = 0 /\ now = 0 /\ live = 0 /\ n = 0 /\ unl = 0 /\ ghost = [rej |-> 0, unlended |-> 0] /\ hist = <<[op |-> "limit", k |-> lim, admitted |-> 0, live |-> 0]>>
 
-Rec(op, k, adm) == n < MaxOps /\ n' = n + 1 /\ hist' = Append(hist, [op |-> op, k |-> k, admitted |-> adm, live |-> live'])
+Rec(op, k, adm) == n < MaxOps /\ n' = n + 1 /\ UNCHANGED path /\ hist' = Append(hist, [op |-> op, k |-> k, admitted |-> adm, live |-> live'])
 
 \* one connect: take; a rejected connection is closed, which runs PostDisconnect
 \* lim = 0 models "no connection limit configured" (the limiter does not exist: nobody takes a slot);
@@ -58,6 +61,6 @@ Spec == Init /\ [][Next]_vars
 \* C18: never more admitted sessions than the limit; the counters describe the admitted sessions exactly
 NeverOver   == lim > 0 => live - unl <= lim
 CountsExact == tmp = live - unl /\ now = live - unl
-Emit == Export = "" \/ Serialize(ToJson([steps |-> hist']) \o "\n", Export,
+Emit == Export = "" \/ Serialize(ToJson([steps |-> hist', path |-> path]) \o "\n", Export,
           [format |-> "TXT", charset |-> "UTF-8", openOptions |-> <<"WRITE", "CREATE", "APPEND">>]).exitValue = 0
 =============================================================================
